@@ -35,7 +35,7 @@ TReset ==
   /\ spc' = "idle" /\ sjob' = NoJob /\ sres' = FALSE
   /\ cpc' = "idle"
   /\ submitted' = {} /\ fails' = [j \in Jobs |-> 0] /\ done' = [j \in Jobs |-> FALSE]
-  /\ lateStarts' = [w \in Workers |-> 0]
+  /\ lateStarts' = [w \in Workers |-> 0] /\ discarded' = {}
   /\ step' = [act |-> "Init"]
 
 TraceInit == Init /\ l = 1 /\ TLCSet(1, 0)
